@@ -24,7 +24,7 @@ struct Obs {
     val_exec: u128,
 }
 
-fn c01(l: &PriceLevel, rep: &mut Report, step: usize, what: &str) {
+fn c01(l: &PriceLevel, rep: &mut Report, step: usize, what: &str, legs: bool) {
     let ls = l.iter_orders();
     let sv: u128 = ls.iter().map(|o| o.visible_quantity() as u128).sum();
     let sh: u128 = ls.iter().map(|o| o.hidden_quantity() as u128).sum();
@@ -33,11 +33,33 @@ fn c01(l: &PriceLevel, rep: &mut Report, step: usize, what: &str) {
     if l.visible_quantity() as u128 != sv { rep.violation("C01", "wf.visible_equals_sum", format!("step={step} after {what}: visible_quantity()={} but sum over resting orders={}", l.visible_quantity(), sv)); }
     if l.hidden_quantity() as u128 != sh { rep.violation("C01", "wf.hidden_equals_sum", format!("step={step} after {what}: hidden_quantity()={} but sum over resting orders={}", l.hidden_quantity(), sh)); }
     if l.order_count() != ids.len() { rep.violation("C01", "wf.count_equals_len", format!("step={step} after {what}: order_count()={} but {} resting orders", l.order_count(), ids.len())); }
+    if !legs { return; }
+    // C10, assumed legs (OrderQueue::to_vec, text and JSON forms), cross-checked on the real library
+    if ids.len() != ls.len() || ls.windows(2).any(|w| w[0].timestamp() > w[1].timestamp()) {
+        rep.violation("C10", "listing.each_once_sorted_by_timestamp", format!("step={step} after {what}: listing = {:?}", ls.iter().map(|o| (o.id(), o.timestamp())).collect::<Vec<_>>()));
+    }
+    let want = listing(l);
+    match l.to_string().parse::<PriceLevel>() {
+        Ok(t) => { if listing(&t) != want || t.price() != l.price() || t.visible_quantity() != l.visible_quantity() || t.hidden_quantity() != l.hidden_quantity() || t.order_count() != l.order_count() {
+            rep.violation("C10", "roundtrip.text_form_same_content", format!("step={step} after {what}: text form {} parses to different content", l)); } }
+        Err(e) => rep.violation("C10", "roundtrip.text_form_same_content", format!("step={step} after {what}: text form {} does not parse: {e}", l)),
+    }
+    match serde_json::to_string(l).map_err(|e| e.to_string()).and_then(|j| serde_json::from_str::<PriceLevel>(&j).map_err(|e| format!("{e} in {j}"))) {
+        Ok(t) => { if listing(&t) != want || t.price() != l.price() || t.visible_quantity() != l.visible_quantity() || t.hidden_quantity() != l.hidden_quantity() || t.order_count() != l.order_count() {
+            rep.violation("C10", "roundtrip.json_form_same_content", format!("step={step} after {what}: JSON form deserializes to different content")); } }
+        Err(e) => rep.violation("C10", "roundtrip.json_form_same_content", format!("step={step} after {what}: JSON round trip failed: {e}")),
+    }
+    match l.snapshot_package().and_then(PriceLevel::from_snapshot_package) {
+        Ok(t) => { if listing(&t) != want || t.price() != l.price() || t.visible_quantity() != l.visible_quantity() || t.hidden_quantity() != l.hidden_quantity() || t.order_count() != l.order_count() {
+            rep.violation("C10", "roundtrip.package_same_content", format!("step={step} after {what}: package round trip yields different content")); } }
+        Err(e) => rep.violation("C10", "roundtrip.package_always_succeeds", format!("step={step} after {what}: {e}")),
+    }
 }
 
 pub fn run(v: &serde_json::Value, rep: &mut Report) -> Result<(), String> {
     let price = v.get("price").and_then(|x| x.as_u64()).unwrap_or(100);
     let ops = v.get("ops").and_then(|x| x.as_array()).ok_or("missing ops")?;
+    let legs = v.get("legs").and_then(|x| x.as_bool()).unwrap_or(true);
     let ns = uuid::Uuid::parse_str("6ba7b810-9dad-11d1-80b4-00c04fd430c8").unwrap();
     let mut level = PriceLevel::new(price);
     let mut twin: Option<(PriceLevel, UuidGenerator)> = None; // restored copy run in lock-step (C11)
@@ -221,7 +243,7 @@ pub fn run(v: &serde_json::Value, rep: &mut Report) -> Result<(), String> {
             }
             other => return Err(format!("unknown op {other}")),
         }
-        c01(&level, rep, step, name);
+        c01(&level, rep, step, name, legs);
         let st = level.stats();
         if twin.is_none() && !ops.iter().take(step + 1).any(|o| o.get("op").and_then(|x| x.as_str()) == Some("restore")) {
             if st.orders_added() != ob.adds { rep.violation("C15", "stats.orders_added", format!("step={step} stats={} events={}", st.orders_added(), ob.adds)); }
